@@ -1100,6 +1100,20 @@ def _known_not_single(p, sym):
 
 
 def check_list(ctx, classes, arity_rule=None, empty_and_rule=None):
+    """_check_list_impl; when the translator works in two passes and the
+    path rules then report something, the report is withdrawn and the check
+    declines (the paths explore the two loops independently)."""
+    nf, no = len(ctx.findings), len(ctx.obligations)
+    ctx._two_pass = None
+    res = _check_list_impl(ctx, classes, arity_rule, empty_and_rule)
+    if ctx._two_pass and len(ctx.findings) > nf:
+        del ctx.findings[nf:]
+        del ctx.obligations[no:]
+        raise AnalysisError(ctx._two_pass)
+    return res
+
+
+def _check_list_impl(ctx, classes, arity_rule=None, empty_and_rule=None):
     """The list-of-lists form is the OR over its entries of the AND over
     each entry's members, every member parsed as a single check and no
     non-empty entry or member left out: decided on the translator's paths
@@ -1118,7 +1132,7 @@ def check_list(ctx, classes, arity_rule=None, empty_and_rule=None):
                 for c in ast.walk(lp) if isinstance(c, ast.Call)
                 and method_call(c, 'append')}
             for n in ast.walk(top_loops[-1].iter)):
-        raise AnalysisError(
+        ctx._two_pass = (
             'the list translator %s works in two passes (line %d collects '
             'what the loop at line %d iterates): the path rules on entries '
             'and members read a single pass' % (
@@ -1150,7 +1164,8 @@ def check_list(ctx, classes, arity_rule=None, empty_and_rule=None):
     pr_ = prog.functions.get(PARSER + '.parse_rule')
     outer = container_classes(pr_, True) if pr_ is not None else []
     inner = container_classes(f, False)
-    if outer and inner:
+    BUILTIN_C = {'list', 'tuple', 'set', 'frozenset'}
+    if outer and inner and set(outer[0][1]) <= BUILTIN_C:
         want_c = outer[0][1]
         for n_, names in inner:
             ctx.ob('C01.LIST', names == want_c, ctx.where(mod, n_), f.qual,
